@@ -5,6 +5,7 @@ import (
 	"debug/macho"
 	"encoding/binary"
 	"errors"
+	"fmt"
 	"io"
 
 	"github.com/sassoftware/relic/v8/lib/binpatch"
@@ -168,12 +169,18 @@ func scanFile(r io.Reader) (*machoMarkers, error) {
 	}
 	linkEditEnd := int64(f.linkEditHdr.Offset) + int64(f.linkEditHdr.Filesz)
 	if f.sigLen != 0 {
+		if f.sigLen > 10e6 {
+			return nil, fmt.Errorf("unreasonably large LC_CODE_SIGNATURE of %d bytes", f.sigLen)
+		}
 		f.codeSize = f.sigStart
 		sigEnd := f.sigStart + f.sigLen
 		if sigEnd > linkEditEnd || sigEnd < linkEditEnd-16 {
 			return nil, errors.New("old signature is not coterminous with __LINKEDIT segment")
 		}
 	} else {
+		if f.sigStart != 0 {
+			return nil, errors.New("LC_CODE_SIGNATURE has an offset but no length")
+		}
 		f.codeSize = linkEditEnd
 	}
 	return f, nil
